@@ -327,7 +327,7 @@ SHRINK_SKIP = {"text", "rewritten", "schema", "kinds"}
 
 
 def shards(tier, seed):
-    n = 1500 if tier == "thorough" else 150
+    n = 9000 if tier == "thorough" else 900
     return [{"seed": seed, "lo": i * n, "hi": (i + 1) * n} for i in range(16)]
 
 
